@@ -193,12 +193,12 @@ pub fn do_refresh<C: Suite>(
         if shares.len() != remaining.len() {
             return fail("C10/dealer-refresh/share-count", format!("{} refreshing shares for {} participants", shares.len(), remaining.len()));
         }
-        for (k, id) in remaining.iter().enumerate() {
-            // shares are returned in the same order as `identifiers`
-            let sh = &shares[k];
-            if sh.identifier() != id {
-                ctx.fail("C10/dealer-refresh/share-order", format!("refreshing share #{k} is for {} not {}", id_hex::<C>(sh.identifier()), id_hex::<C>(id)))?;
-            }
+        for id in remaining.iter() {
+            // every participant takes the refreshing share that carries its identifier
+            let sh = match shares.iter().find(|s| s.identifier() == id) {
+                Some(s) => s,
+                None => return fail("C10/dealer-refresh/share-missing", format!("no refreshing share for remaining participant {} ({desc})", id_hex::<C>(id))),
+            };
             match refresh::refresh_share(sh.clone(), &old_kps[id]) {
                 Ok(kp) => {
                     new_kps.insert(*id, kp);
@@ -425,8 +425,11 @@ fn invalid_inputs<C: Suite>(ctx: &mut Ctx, kps: &Kps<C>, pk: &PublicKeyPackage<C
             ctx.label("invalid:changed-threshold");
             let pk2 = PublicKeyPackage::<C>::new(pk.verifying_shares().clone(), *pk.verifying_key(), Some(t2));
             if let Ok((shares, _)) = refresh::compute_refreshing_shares::<C, _>(pk2, remaining, &mut Tape::random(rng.next())) {
-                let k = remaining.iter().position(|x| *x == victim).unwrap();
-                let r = refresh::refresh_share(shares[k].clone(), &kps[&victim]);
+                let sh = match shares.iter().find(|s| *s.identifier() == victim) {
+                    Some(s) => s.clone(),
+                    None => continue,
+                };
+                let r = refresh::refresh_share(sh, &kps[&victim]);
                 ensure!(ctx, r.is_err(), "C10/dealer-refresh/changed-threshold-accepted", "refresh_share accepted a refreshing share of threshold {t2} for a key package of threshold {t} ({desc})");
             }
         }
